@@ -28,6 +28,8 @@ def oracle(c, r):
         return None
     if 'save_exc' in r:
         return {'key': 'save-raised', 'what': where + f": {r['save_exc']}"}
+    if 'read_exc' in r and P.plain_nonnative(c):
+        return {'key': 'pla-plain-nonnative-dtype', 'what': where + f": {r['read_exc']}"}
     if 'read_exc' in r:
         return {'key': 'read-raised', 'what': where + f": {r['read_exc']}"}
     o, b = r['orig'], r['back']
